@@ -214,7 +214,7 @@ def fhist(c):
     import setigen as stg
 
     def build(f):
-        fr = stg.Frame(fchans=f["F"], tchans=f["T"], df=f["df"], dt=f["dt"], fch1=6e9, seed=f["seed"], t_start=0.0)
+        fr = stg.Frame(fchans=f["F"], tchans=f["T"], df=f["df"], dt=f["dt"], fch1=6e9, seed=f["seed"], t_start=f.get("t_start", 0.0))
         for op in f["ops"]:
             if op == "obs_chi2":
                 fr.add_noise_from_obs(noise_type="chi2")
@@ -240,8 +240,11 @@ def fhist(c):
         build(f)
     t1 = build(c["target"])
     t2 = build(c["target"])
-    dig = lambda fr: hashlib.sha256(np.ascontiguousarray(fr.data).tobytes() + repr([float(x).hex() for x in fr.get_noise_stats()]).encode()).hexdigest()
-    return dict(digest=dig(t1), again=dig(t2), stats=[float(x) for x in t1.get_noise_stats()])
+    # the frame, not only its pixels: start time, axes and geometry belong to "bit-identical frames"
+    def dig(fr):
+        meta = [float(x).hex() for x in fr.get_noise_stats()] + [float(fr.t_start).hex(), float(fr.fch1).hex(), float(fr.df).hex(), float(fr.dt).hex(), bool(fr.ascending), str(fr.source_name)]
+        return hashlib.sha256(np.ascontiguousarray(fr.data).tobytes() + np.ascontiguousarray(fr.ts).tobytes() + np.ascontiguousarray(fr.fs).tobytes() + repr(meta).encode()).hexdigest()
+    return dict(digest=dig(t1), again=dig(t2), stats=[float(x) for x in t1.get_noise_stats()], t_start=float(t1.t_start), t_start_again=float(t2.t_start))
 
 
 def main():
